@@ -45,6 +45,24 @@ def is_ca(cert):
         return False
 
 
+def canon_name(nm):
+    """the distinguished name as X.509 name matching compares it (OpenSSL's x509_name_canon / RFC 5280 7.1): per attribute the OID and the value with its string type
+    ignored, ASCII letters folded to lower case, leading / trailing blanks dropped and runs of blanks collapsed; RDN structure kept"""
+    import re as _re
+    out = []
+    for rdn in nm.rdns:
+        parts = []
+        for a in rdn:
+            v = a.value
+            if isinstance(v, bytes):
+                parts.append((a.oid.dotted_string, "b:" + v.hex()))
+            else:
+                v2 = _re.sub(r"[ \t\n\r\f\v]+", " ", v.strip(" \t\n\r\f\v"))
+                parts.append((a.oid.dotted_string, "".join(ch.lower() if ch.isascii() else ch for ch in v2)))
+        out.append(tuple(sorted(parts)))
+    return repr(tuple(out)).encode("utf-8")
+
+
 def epoch(dt):
     import calendar
     return calendar.timegm(dt.utctimetuple())
@@ -70,7 +88,7 @@ def views(x5c_der, roots_pem):
             if sig_ok(c, pk):
                 sb = kid
                 break
-        return " ".join([fw.wb(c.subject.public_bytes()), fw.wb(c.issuer.public_bytes()), fw.wi(epoch(c.not_valid_before_utc)), fw.wi(epoch(c.not_valid_after_utc)),
+        return " ".join([fw.wb(canon_name(c.subject)), fw.wb(canon_name(c.issuer)), fw.wi(epoch(c.not_valid_before_utc)), fw.wi(epoch(c.not_valid_after_utc)),
                          fw.wbool(is_ca(c)), fw.wi(key_id(c.public_key())), fw.wi(sb)])
     return [view(c) for c in xs], [view(c) for c in rs]
 
